@@ -455,8 +455,10 @@ func ctInputs(ctx *core.Ctx) []ctIn {
 			ins = append(ins, ctIn{Entry: e, Q: pp(i)})
 		}
 		ins = append(ins, ctIn{Entry: "Point.SetBytes", Bytes: pts[i].Enc})
-		for d := -8; d <= 8; d++ {
-			ins = append(ins, ctIn{Entry: "table.SelectInto(proj)", Q: pp(i), Digit: d})
+		if shimAvailable {
+			for d := -8; d <= 8; d++ {
+				ins = append(ins, ctIn{Entry: "table.SelectInto(proj)", Q: pp(i), Digit: d})
+			}
 		}
 	}
 	// accepted non-canonical encodings are valid inputs too
@@ -468,6 +470,9 @@ func ctInputs(ctx *core.Ctx) []ctIn {
 				ins = append(ins, ctIn{Entry: "Point.SetBytes", Bytes: Hex(b[:])})
 			}
 		}
+	}
+	if !shimAvailable {
+		ctx.Note("in-package shim unavailable on this tree (an internal was renamed): the direct table.SelectInto entries are skipped; the table lookups are still traced inside every scalar multiplication entry")
 	}
 	if shimAvailable {
 		for t := 0; t < 32; t += 5 {
